@@ -72,6 +72,34 @@ T.update({
    demo="demo_c15.rs: two senders on sync_channel(1|2), check_dfs",
    catches={"C15":"after-op-clock-not-dominated:recv-frees-send"}),
 })
+
+T.update({
+ "C16": dict(property="C16", run_checks=["C16"],
+   change="deserialize_schedule's guard on the declared task-id bit width rewritten as an exclusive range test: a width of usize::BITS (needed for ids >= 2^63) is now rejected",
+   needs="a schedule containing a task id with the top bit set (e.g. usize::MAX)",
+   demo="demo_c16.rs: task_ids_at_full_bit_width_roundtrip",
+   catches={"C16":"roundtrip-rejected:as-produced / :line-breaks-removed / :whitespace-added (boundary task ids are part of the generator)"}),
+ "C17": dict(property="C17", run_checks=["C17"],
+   change="Task::wake sets the `woken` flag only when the task is not sleeping (else branch), so a wake that unblocks a task asleep in a nested block_on is not remembered for the enclosing poll",
+   needs="within one poll of a spawned task: register the task's waker with an event A, then sleep in a nested block_on for event B; A fires during that sleep; the poll then returns Pending",
+   demo="demo_c17.rs: join!(rx_a.await, blocking_recv(rx_b)) in a spawned task; hand-written waker variant",
+   catches={"C17":"(after strengthening) lost wake-up / deadlock of a terminating program: new op JoinNested(a, b) = join of a pend with a blocking wait inside one poll, in generated programs and four fixed programs; before that nested block_on was only generated in the main thread and never in the same poll as a waker registration"}),
+ "C18": dict(property="C18", run_checks=["C18"],
+   change="Acquire::poll checks `semaphore.is_closed()` before `waiter.has_permits`: an acquisition that was already granted its permits fails with Closed if close() happened before its next poll",
+   needs="a queued acquire that is granted permits by a release, then close(), then the poll",
+   demo="demo_c18.rs",
+   catches={"C18":"wrong-result:Poll (scripted FIFO model: granted acquisitions complete even after close)"}),
+ "C19": dict(property="C19", run_checks=["C19"],
+   change="tokio replacement mpsc try_recv reports Disconnected as soon as the channel is closed and no permit is available, without checking that nothing is in flight (dropped `&& self.is_empty()`)",
+   needs="close() racing with a send that has been accepted but not yet delivered, drained through try_recv",
+   demo="demo_c19.rs: close_then_try_recv_racing_with_send_{unbounded,bounded}",
+   catches={"C19":"(after strengthening) scenario:mpsc-close-drain-first:panic (new scenario: close, drain with try_recv then recv, `Disconnected` must be final and every accepted send delivered); the hand-polled differential cannot see it because it has no task that is between 'accepted' and 'delivered'"}),
+ "C20": dict(property="C20", run_checks=["C20"],
+   change="parking_lot replacement try_lock_upgradable collapsed into `a.try_acquire(1).is_ok() && b.try_acquire(1).is_ok()`: the upgradable slot is not given back when the shared permit is refused",
+   needs="try_upgradable_read failing at its second step (a writer holds the lock, or readers hold it with a writer queued), then another upgradable acquisition",
+   demo="demo_c20.rs (in wrappers/parking_lot/parking_lot_impl/tests)",
+   catches={"C20":"lock-program-deadlocked (try-variants must leave nothing behind)"}),
+})
 for k, v in T.items():
     d = f"/verif/seeded/{k}"
     if not os.path.isdir(d):
